@@ -24,7 +24,8 @@ META = {
              'ze, decimal voxel sizes (rounding ties of the key formatting'
              '), axis ratios up to 2^40.'
              " Round 16: descriptions that already carry several scales (the info of an existing dataset)."
-             " Round 17: descriptions whose scale already carries chunk_sizes / key."),
+             " Round 17: descriptions whose scale already carries chunk_sizes / key."
+             " Round 18: an earlier generation whose result the caller edits in place."),
     "trusted_base": ["validity predicate formalising the docstring of "
                      "fill_scales_for_dyadic_pyramid", "vlib/refs/"
                      "pyramid_model.py (cross-validated in C06)"],
@@ -90,6 +91,27 @@ def generate(ctx, case):
     from neuroglancer_scripts import dyadic_pyramid
     from neuroglancer_scripts.scripts import generate_scales_info as gsi
     info = build_fullres(case)
+    # the process has generated the scales of another dataset before (same
+    # parameters), and its caller has since edited that result in place
+    # (clamped chunk sizes, renamed keys): nothing of it may show up here
+    try:
+        earlier = json.loads(json.dumps(build_fullres(case)))
+        gsi.set_info_params(earlier, dataset_type=case["type"],
+                            encoding=cli_encoding(case))
+        dyadic_pyramid.fill_scales_for_dyadic_pyramid(
+            earlier, target_chunk_size=case["target"],
+            max_scales=case["max_scales"])
+        for sc_ in earlier["scales"]:
+            for cs in sc_.get("chunk_sizes", []):
+                for k in range(len(cs)):
+                    cs[k] = 1 if cs[k] != 1 else 3
+            for name in ("size", "resolution", "voxel_offset"):
+                for k in range(len(sc_.get(name, []))):
+                    sc_[name][k] = 7
+            sc_["key"] = "edited"
+        earlier["scales"].append({"key": "extra"})
+    except Exception:     # noqa - judged below, on the real generation
+        pass
     if case["cli"]:
         d = ctx.tmpdir("gsi")
         try:
